@@ -59,13 +59,29 @@ inline std::string vstr(const T& v)
 // ---- atomic ---------------------------------------------------------------------------------
 extern int g_casfail_left;
 extern int g_latewake_left;
+// opt-in (set by a client after verif::begin): the CONSTRUCTION of a substituted atomic is a scheduling point (no event).
+// Needed where the library creates synchronisation objects lazily: the window between "slot is empty" and "slot filled"
+// contains no other substituted operation (std::atomic_load/store on shared_ptr are real libstdc++ calls).
+extern int g_ctor_sched;
 template <class T>
 class atomic {
     T v;
 
   public:
-    atomic() noexcept: v() { reg_auto(this, "a"); }
-    atomic(T x) noexcept: v(x) { reg_auto(this, "a"); }  // NOLINT
+    atomic() noexcept: v()
+    {
+        reg_auto(this, "a");
+        if (g_ctor_sched != 0) {
+            sched();
+        }
+    }
+    atomic(T x) noexcept: v(x)  // NOLINT
+    {
+        reg_auto(this, "a");
+        if (g_ctor_sched != 0) {
+            sched();
+        }
+    }
     ~atomic() { unreg(this); }
     atomic(const atomic&) = delete;
     atomic& operator=(const atomic&) = delete;
